@@ -347,3 +347,12 @@ def metadata_block_cases():
         return {"confirmed": True, "input": {"source": src}, "actual": got, "expected": want,
                 "how": "real pipeline + Project.markdown: metadata values and the tracer words of the rendered documentation, in order"}
     return None
+
+
+def inherited_generic_doc():
+    from bounded import c07
+    bad = c07.inherited_generics(("docs",))
+    if bad:
+        return {"confirmed": True, "input": {"source": c07.INHERITED_GENERIC}, "actual": bad, "expected": "the comment of a generic binding is rendered for every type that inherits the binding",
+                "how": "real pipeline + Project.markdown: tracer words of the binding's documentation per type"}
+    return None
